@@ -62,10 +62,11 @@ def rnd_opts(rng, kind, names):
 
 
 def gen_case(rng, tier, flavour):
-    spec = kmodels.gen_spec(rng, ncomp=(2, 4), sizes=(1, 2),
+    spec = kmodels.gen_spec(rng, ncomp=(3, 4) if flavour == 'subsolver' else (2, 4), sizes=(1, 2),
                             coupled=True if flavour == 'solver' else None,
+                            groups=True if flavour == 'subsolver' else None,
                             nl_iters=rng.choice([11, 12]) if flavour == 'solver' else rng.choice([2, 3]),
-                            sub_solvers=True)
+                            sub_solvers=True, sub_solver_prob=1.0 if flavour == 'subsolver' else 0.35)
     dvs = spec['dvs']
     n = spec['comps'][0]['n']
     dtype = 'none'
@@ -96,8 +97,9 @@ def gen_case(rng, tier, flavour):
         runs.append('driver')
         if rng.random() < 0.6:
             runs.append('record:final')
-        if rng.random() < 0.2:
-            runs.append('driver')
+        if rng.random() < 0.4:
+            # a second run of the driver into the same recorder (new prefix, or continuing iteration counts)
+            runs.append(rng.choice(['driver', 'driver_cont']))
     ins, outs = kmodels.all_abs_names(spec)
     prom = [kmodels.prom_name(c, v, 'in') for c in spec['comps'] for v in c['ins']] + \
            [kmodels.prom_name(c, v, 'out') for c in spec['comps'] for v in c['outs']]
@@ -118,9 +120,17 @@ def gen_case(rng, tier, flavour):
             rel = [nm[len(g) + 1:] for nm in ins + outs if nm.startswith(g + '.')]
             rec['systems'][g] = rnd_opts(rng, 'system', rel + [nm for nm in ins if nm.startswith(g + '.')])
     for path in spec['solvers']:
-        if rng.random() < 0.8:
+        if rng.random() < 0.8 or flavour == 'subsolver':
             rel = [nm[len(path) + 1:] if path else nm for nm in ins + outs if nm.startswith(path + '.') or not path]
-            rec['solvers'][path] = rnd_opts(rng, 'solver', rel)
+            o = rnd_opts(rng, 'solver', rel)
+            if flavour == 'subsolver' and rel:
+                # patterns relative to the solver's group that do not start with a wildcard
+                o['excludes'] = rng.sample(rel, min(len(rel), rng.randint(1, 2)))
+                if rng.random() < 0.5:
+                    o['includes'] = rng.sample(rel, min(len(rel), rng.randint(1, 3))) + ['*']
+                o.setdefault('record_outputs', True)
+                o['record_inputs'] = True
+            rec['solvers'][path] = o
     if rec['problem'] is None and rec['driver'] is None and not rec['systems'] and not rec['solvers']:
         rec['systems'][''] = rnd_opts(rng, 'system', allnames)
     return {'spec': spec, 'driver': driver, 'runs': runs, 'rec': rec, 'flavour': flavour,
@@ -131,7 +141,7 @@ def gen(tier, rng):
     n = 48 if tier == 'quick' else 600
     out = []
     for i in range(n):
-        out.append(gen_case(rng, tier, ['mix', 'mix', 'doe', 'solver', 'runs', 'mix'][i % 6]))
+        out.append(gen_case(rng, tier, ['mix', 'mix', 'doe', 'solver', 'runs', 'subsolver'][i % 6]))
     return out
 
 
